@@ -32,7 +32,9 @@ META = {
                "20-member (24 bit); value symbolic over the enum's width; plain ints 0..255",
                "stale DTR0/1/2 symbolic", "schemes -1..6 symbolic",
                "autodiscover: <= 2 devices (thorough 3), instance count 0..2 (thorough 0..4), symbolic status "
-               "/ enabled / type, one fault (silence or framing error) at a symbolic step"],
+               "/ enabled / type, one fault (silence or framing error) at a symbolic step",
+               "two runs in one process against independent units: input value (asked/asked, given/asked), "
+               "24-bit filter set and query, scheme"],
     "stubs": ["isinstance/int shims", "EnumProxy for EventScheme inside dali.device.sequences",
               "SymFlag stand-in for IntFlag instances in symbolic mode"],
     "outside": ["resolutions outside 1..32", "instance counts > 4 in autodiscover (thorough bound)",
